@@ -48,18 +48,57 @@ pub fn gen_admin(rng: &mut Rng, thorough: bool) -> Vec<String> {
             format!("(clr {})", c)
         } else if r < 85 {
             // a contract acting (possibly as admin) through a sub-message
-            let inner = match rng.below(3) {
+            // (half of the time aimed at the pair that works when c2_1 was made admin of c1_0)
+            let aimed = rng.chance(1, 2);
+            let c = if aimed { "c1_0".to_string() } else { c.clone() };
+            let inner = match rng.below(5) {
                 0 => format!("(upd {} {})", c, rng.pick(&["u1", "u2", "c2_1"])),
                 1 => format!("(mig {} {} ((attr m 1)))", c, rng.range(1, ncodes)),
+                // a migration that fails after the new code id was recorded: in `migrate` itself, or in a message it sends
+                2 => format!("(mig {} {} ((w 6e08 01) (fail)))", c, rng.range(1, ncodes)),
+                3 => format!("(mig {} {} ((w 6e08 02) (msg (exec {} ((fail)) -))))", c, rng.range(1, ncodes), rng.pick(&["c1_2", "c1_0"])),
                 _ => format!("(clr {})", c),
             };
             let mode = rng.pick(&["always", "error", "success", "never"]);
             ctx.sub_id += 1;
-            format!("(exec {} ((sub {} {} ((attr r 1)) {})) -)", rng.pick(&["c2_1", "c1_0", "c1_2"]), ctx.sub_id, mode, inner)
+            let actor = if aimed { "c2_1" } else { rng.pick(&["c2_1", "c1_0", "c1_2"]) };
+            format!("(exec {} ((sub {} {} ((attr r 1)) {})) -)", actor, ctx.sub_id, mode, inner)
         } else {
             // ordinary call: which code serves it is visible in the trace tag
             format!("(exec {} ((rd 6b) (rd 6d6967) (attr call 1)) -)", c)
         };
+        if rng.chance(1, 6) {
+            // contract metadata written, LOOKED AT by a contract while the write is pending, then rolled back:
+            // a later query / call must not see any of it
+            let change = match rng.below(4) {
+                0 => format!("(upd {} {})", c, rng.pick(&["u2", "u3", "c1_2"])),
+                1 => format!("(mig {} {} ((w 6e07 07)))", c, rng.range(1, ncodes)),
+                2 => format!("(clr {})", c),
+                _ => "(inst 1 ((w 6b 05)) - fresh u3 ~)".to_string(),
+            };
+            let seen = if change.starts_with("(inst") { "c1_3".to_string() } else { c.clone() };
+            let looker = rng.pick(&["c2_1", "c1_2"]);
+            let look = format!("(exec {} ((qinfo {}) (qsmart {} ((rd 6b) (rd 6e07))) (qraw {} 6e07)) -)", looker, seen, seen, seen);
+            if rng.chance(1, 2) {
+                // the whole transaction fails
+                ops.push(format!("multi {} ({} {} (exec {} ((fail)) -))", who, change, look, looker));
+            } else {
+                // a contract (possibly the admin) makes the change through plain messages inside a sub-message that
+                // fails afterwards and is caught: the transaction succeeds
+                ctx.sub_id += 1;
+                ops.push(format!(
+                    "exec {} (exec c1_2 ((sub {} error ((attr caught 1)) (exec c2_1 ((msg {}) (msg {}) (msg (exec {} ((fail)) -))) -))) -)",
+                    who, ctx.sub_id, change, look, looker
+                ));
+            }
+            observe(&mut ops);
+            for k in ["c1_0", "c2_1", "c1_2", "c1_3"] {
+                ops.push(format!("q-info {}", k));
+            }
+            ops.push(format!("q-smart {} ((rd 6b) (rd 6e07))", seen));
+            ops.push(format!("exec u3 (exec {} ((rd 6b) (rd 6e07) (attr call 2)) -)", seen));
+            observe(&mut ops);
+        }
         ops.push(format!("exec {} {}", who, msg));
         observe(&mut ops);
         for k in ["c1_0", "c2_1", "c1_2"] {
@@ -333,6 +372,21 @@ pub fn gen_iso(rng: &mut Rng, thorough: bool) -> Vec<String> {
         ops.push("rawhash".into());
         ops.push(format!("exec u1 (exec {} ({}) -)", c, acts.join(" ")));
         observe(&mut ops);
+        // the test author's own accessor (App::contract_storage_mut / contract_storage): writes land in exactly
+        // that contract's window and the contract reads them back
+        if rng.chance(1, 3) {
+            let c3 = rng.pick(&contracts);
+            let key = rng.pick(ADV_KEYS).to_string();
+            if rng.chance(1, 3) {
+                ops.push(format!("cs-rm {} {}", c3, key));
+            } else {
+                ops.push(format!("cs-set {} {} {:02x}", c3, key, rng.range(1, 200)));
+            }
+            ops.push(format!("cs-get {} {}", c3, key));
+            ops.push(format!("cs-get {} {}", rng.pick(&contracts), key));
+            ops.push(format!("exec u1 (exec {} ((rd {}) (rng ~ ~ asc)) -)", c3, key));
+            observe(&mut ops);
+        }
         for c2 in &contracts {
             ops.push(format!("wdump {}", c2));
             ops.push(format!("cstore {} ~ ~ asc", c2));
